@@ -2,7 +2,8 @@
 
    Property theorems only. Model: Model/TagGrammar.v, a byte-level, line-by-line model of
    github.com/go-kid/strings2 v0.0.1 (Index / SplitWithConfig / IndexSkipBlocks), of
-   component_definition/arg.go (TagArg.Parse, Set, formatArgType, Find, Has), of Property.IsRequired, of
+   component_definition/arg.go (TagArg.Parse, Set, Add, formatArgType, Find, Has, String), of Property.IsRequired /
+   SetArg / AddArg, of
    the `prop` shorthand rewrite and of the Required default of the tag scan. Every Go slice / index
    expression is a checked operation with an explicit [Panic] result. Lemmas: Proofs/TagGrammarProofs.v.
 
@@ -110,6 +111,57 @@ Theorem c19_prop_shorthand : forall (v : bytes) (args : list (bytes * list bytes
     /\ required_default true (set_all args) = Ok m.
 Proof. exact scan_prop_render. Qed.
 
+(* ---- the exported argument API of a parsed Property (SetArg / AddArg / Args().Set / Add) -------------------------
+   One table keyed by the canonical name (first letter upper-cased): whatever spelling a caller uses to write an
+   argument, every reader - Find / Has with the constants ArgRequired / ArgQualifier, or with the tag spelling -
+   sees it.  Set replaces, Add appends, other names are untouched, nothing panics. *)
+
+(* any sequence of Set / Add calls on any table, with any names (empty, non-ASCII, ...) and values, runs through *)
+Theorem c19_api_total : forall (m : argmap) (ops : list arg_op), exists m', apply_ops m ops = Ok m'.
+Proof. intros m ops. apply apply_ops_total. Qed.
+
+(* Set replaces: afterwards the name is bound to exactly the values given, under either case of its first letter *)
+Theorem c19_set_replaces : forall (m : argmap) (c : N) (rest : bytes) (val : list bytes),
+  exists m', arg_set m (c :: rest) val = Ok m'
+    /\ find m' (c :: rest) = Ok (Some val)
+    /\ (is_ascii_letter c = true -> find m' (flip_first (c :: rest)) = Ok (Some val)).
+Proof. exact find_after_set. Qed.
+
+(* Add appends: afterwards the name is bound to what it was bound to before (nothing, when it was not in the table -
+   e.g. a point whose tag declares no such argument) followed by the values given, under either spelling *)
+Theorem c19_add_appends : forall (m : argmap) (c : N) (rest : bytes) (val : list bytes) (old : option (list bytes)),
+  find m (c :: rest) = Ok old ->
+  exists m', arg_add m (c :: rest) val = Ok m'
+    /\ find m' (c :: rest) = Ok (Some (stored old ++ val))
+    /\ (is_ascii_letter c = true -> find m' (flip_first (c :: rest)) = Ok (Some (stored old ++ val))).
+Proof. exact find_after_add. Qed.
+
+(* ... so a value that was added is found by Has under either spelling, on every table *)
+Theorem c19_add_visible : forall (m : argmap) (c : N) (rest : bytes) (val : list bytes) (w : bytes),
+  In w val ->
+  exists m', arg_add m (c :: rest) val = Ok m'
+    /\ has m' (c :: rest) [w] = Ok true
+    /\ (is_ascii_letter c = true -> has m' (flip_first (c :: rest)) [w] = Ok true).
+Proof. exact has_after_add. Qed.
+
+(* Add, like Set (c19_case_set), does not care about the case of the first letter of the name it is given *)
+Theorem c19_case_add : forall (m : argmap) (c : N) (rest : bytes) (val : list bytes),
+  is_ascii_letter c = true ->
+  arg_add m (flip_first (c :: rest)) val = arg_add m (c :: rest) val.
+Proof. exact arg_add_flip. Qed.
+
+(* frame: a Set or an Add of one name leaves every other name as it was *)
+Theorem c19_api_frame : forall (m : argmap) (n n2 : bytes) (val : list bytes) (m' : argmap),
+  n2 <> [] -> upper_first n2 <> upper_first n ->
+  arg_set m n val = Ok m' \/ arg_add m n val = Ok m' ->
+  find m' n2 = find m n2.
+Proof. exact api_frame. Qed.
+
+(* the empty name is ignored by both *)
+Theorem c19_api_empty_name : forall (m : argmap) (val : list bytes),
+  arg_set m [] val = Ok m /\ arg_add m [] val = Ok m.
+Proof. exact api_empty_name. Qed.
+
 (* ---- non-vacuity: concrete instances ------------------------------------------------------------ *)
 
 (* ")x,(y" (unbalanced): no panic; the value part is ")x," and the argument is Y *)
@@ -178,4 +230,53 @@ Example c19_prop_shorthand_example :
   scan_property true true
     (render [97; 58; 123; 120; 44; 121; 125]%N [([114; 101; 113; 117; 105; 114; 101; 100]%N, [lit_false])])
   = Ok ([36; 123; 97; 58; 123; 120; 44; 121; 125; 125]%N, [(arg_required, [lit_false])]).
+Proof. vm_compute. reflexivity. Qed.
+
+(* "qualifier" / "Qualifier" / "prod" / "dev" *)
+Definition ex_qualifier_lc : bytes := [113; 117; 97; 108; 105; 102; 105; 101; 114]%N.
+Definition ex_qualifier_uc : bytes := [81; 117; 97; 108; 105; 102; 105; 101; 114]%N.
+Definition ex_prod : bytes := [112; 114; 111; 100]%N.
+Definition ex_dev : bytes := [100; 101; 118]%N.
+
+(* a point whose tag declares no qualifier: AddArg("qualifier", "prod") then AddArg("Qualifier", "dev"); SetArg("x") *)
+Example c19_api_total_example :
+  apply_ops [] [OpAdd ex_qualifier_lc [ex_prod]; OpAdd ex_qualifier_uc [ex_dev]; OpSet [120]%N []; OpAdd [] [ex_dev]]
+  = Ok [(ex_qualifier_uc, [ex_prod; ex_dev]); ([88]%N, [])].
+Proof. vm_compute. reflexivity. Qed.
+
+Example c19_set_replaces_example :
+  arg_set [(ex_qualifier_uc, [ex_prod; ex_dev])] ex_qualifier_lc [ex_dev] = Ok [(ex_qualifier_uc, [ex_dev])].
+Proof. vm_compute. reflexivity. Qed.
+
+(* the programmatic qualifier of a point without a tag-declared one is what Has(ArgQualifier, ...) sees *)
+Example c19_add_appends_example :
+  find [] ex_qualifier_lc = Ok None
+  /\ arg_add [] ex_qualifier_lc [ex_prod] = Ok [(ex_qualifier_uc, [ex_prod])]
+  /\ find [(ex_qualifier_uc, [ex_prod])] ex_qualifier_uc = Ok (Some [ex_prod]).
+Proof. vm_compute. repeat split; reflexivity. Qed.
+
+Example c19_add_visible_example :
+  In ex_prod [ex_prod] /\ has [(ex_qualifier_uc, [ex_prod])] ex_qualifier_uc [ex_prod] = Ok true
+  /\ is_ascii_letter 113 = true.
+Proof. split; [left; reflexivity|]. vm_compute. split; reflexivity. Qed.
+
+Example c19_case_add_example :
+  arg_add [(ex_qualifier_uc, [ex_prod])] ex_qualifier_lc [ex_dev] = Ok [(ex_qualifier_uc, [ex_prod; ex_dev])]
+  /\ arg_add [(ex_qualifier_uc, [ex_prod])] ex_qualifier_uc [ex_dev] = Ok [(ex_qualifier_uc, [ex_prod; ex_dev])].
+Proof. vm_compute. split; reflexivity. Qed.
+
+Example c19_api_frame_example :
+  arg_required <> [] /\ upper_first arg_required <> upper_first ex_qualifier_lc
+  /\ arg_add [(arg_required, [lit_false])] ex_qualifier_lc [ex_prod]
+     = Ok [(arg_required, [lit_false]); (ex_qualifier_uc, [ex_prod])].
+Proof. split; [discriminate|]. split; [vm_compute; discriminate|vm_compute; reflexivity]. Qed.
+
+Example c19_api_empty_name_example :
+  arg_add [(ex_qualifier_uc, [ex_prod])] [] [ex_dev] = Ok [(ex_qualifier_uc, [ex_prod])].
+Proof. vm_compute. reflexivity. Qed.
+
+(* the rendering of the table (TagArg.String): .Qualifier(prod,dev).X() *)
+Example c19_args_string_example :
+  args_string [(ex_qualifier_uc, [ex_prod; ex_dev]); ([88]%N, [])]
+  = [46]%N ++ ex_qualifier_uc ++ [40]%N ++ ex_prod ++ [44]%N ++ ex_dev ++ [41; 46; 88; 40; 41]%N.
 Proof. vm_compute. reflexivity. Qed.
